@@ -108,12 +108,15 @@ func gBlockedOnLock(dump, gid string) bool {
 		return false
 	}
 	rest := dump[k+len("goroutine "+gid+" ["):]
-	return strings.HasPrefix(rest, "sync.RWMutex") || strings.HasPrefix(rest, "sync.Mutex") || strings.HasPrefix(rest, "semacquire")
+	// "semacquire" alone is NOT a lock wait: a goroutine inside runtime.Stack waits that way for the world to restart
+	return strings.HasPrefix(rest, "sync.RWMutex") || strings.HasPrefix(rest, "sync.Mutex")
 }
 
 // quiesce waits until no managed goroutine is running: each is parked, finished, or blocked on a lock.
+var gLastDump string
+
 func (s *gSched) quiesce() (parked []*gThread, blocked int, unfinished int, ok bool) {
-	deadline := time.Now().Add(5 * time.Second)
+	deadline := time.Now().Add(20 * time.Second)
 	for spin := 0; ; spin++ {
 		s.mu.Lock()
 		running := []*gThread{}
@@ -136,6 +139,7 @@ func (s *gSched) quiesce() (parked []*gThread, blocked int, unfinished int, ok b
 		if spin > 20 {
 			buf := make([]byte, 1<<17)
 			dump := string(buf[:runtime.Stack(buf, true)])
+			gLastDump = dump
 			blocked = 0
 			for _, t := range running {
 				if gBlockedOnLock(dump, t.gid) {
@@ -143,11 +147,14 @@ func (s *gSched) quiesce() (parked []*gThread, blocked int, unfinished int, ok b
 				}
 			}
 			if blocked == len(running) {
-				// confirm that nothing moved meanwhile
+				// confirm with a second look a moment later that nothing moved meanwhile
+				time.Sleep(300 * time.Microsecond)
+				buf2 := make([]byte, 1<<17)
+				dump2 := string(buf2[:runtime.Stack(buf2, true)])
 				s.mu.Lock()
 				still := true
 				for _, t := range running {
-					if t.state != gRunning {
+					if t.state != gRunning || !gBlockedOnLock(dump2, t.gid) {
 						still = false
 					}
 				}
@@ -177,14 +184,18 @@ func (s *gSched) run(rng *vh.Rand, maxSteps int) string {
 		parked, blocked, unfinished, ok := s.quiesce()
 		if !ok {
 			s.release()
-			return "a goroutine neither parks, finishes nor blocks within 5 s"
+			return "a goroutine neither parks, finishes nor blocks within 20 s"
 		}
 		if unfinished == 0 {
 			return ""
 		}
 		if len(parked) == 0 {
 			s.release()
-			return fmt.Sprintf("deadlock: %d goroutines blocked on a lock, none can run", blocked)
+			d := gLastDump
+			if len(d) > 6000 {
+				d = d[:6000]
+			}
+			return fmt.Sprintf("deadlock: %d goroutines blocked on a lock, none can run\n%s", blocked, d)
 		}
 		if s.Steps >= maxSteps {
 			s.release()
@@ -294,6 +305,16 @@ func c11RunConc(c *c11ConcCase) (fails []c11PolicyFail, reqs []*c11Req, err erro
 	})
 	defer desync.VerifSetYieldHook(nil)
 
+	run.wrapLeaf = func(m *c11Member) desync.Store {
+		return c11Rec{m, func(ans string) {
+			gid := c12GoroutineID()
+			mu.Lock()
+			if r := cur[gid]; r != nil {
+				r.Last = ans
+			}
+			mu.Unlock()
+		}}
+	}
 	inner := run.build(shape)
 	var top desync.Store = inner
 	var swap *desync.SwapStore
@@ -365,6 +386,30 @@ func c11RunConc(c *c11ConcCase) (fails []c11PolicyFail, reqs []*c11Req, err erro
 	return fails, reqs, nil
 }
 
+// c11Rec reports every answer of a member to the request in progress.
+type c11Rec struct {
+	m   *c11Member
+	rec func(ans string)
+}
+
+func (c c11Rec) GetChunk(id desync.ChunkID) (*desync.Chunk, error) {
+	ch, err := c.m.GetChunk(id)
+	t := "_"
+	if ch != nil {
+		t = strconv.Itoa(c11Tag(ch))
+	}
+	c.rec("G" + t + ":" + c11Class(err))
+	return ch, err
+}
+func (c c11Rec) HasChunk(id desync.ChunkID) (bool, error) {
+	b, err := c.m.HasChunk(id)
+	c.rec(fmt.Sprintf("H%v:%s", b, c11Class(err)))
+	return b, err
+}
+func (c c11Rec) StoreChunk(ch *desync.Chunk) error { return c.m.StoreChunk(ch) }
+func (c c11Rec) Close() error                       { return c.m.Close() }
+func (c c11Rec) String() string                     { return c.m.String() }
+
 // member k never fails a request for id i (GetChunk: a valid object or none; no injected fault ever)
 func c11NeverFails(m *c11Member) bool {
 	if m.faults != "" || m.dflt != 'n' {
@@ -399,6 +444,14 @@ func c11ConcPredicate(c *c11ConcCase, w []*c11Member, reqs []*c11Req, shape *c11
 			cls := r.Result[strings.LastIndex(r.Result, ":")+1:]
 			if len(r.Calls) == 0 || len(r.Calls) > n {
 				bad("failover/attempts", "request %s of goroutine %d made %d member calls (group of %d)", r.Op, r.Thread, len(r.Calls), n)
+			}
+			// the group hands back what the last member it consulted said (a ChunkMissing stays a ChunkMissing)
+			if r.Last != "" && r.Last != r.Result {
+				if strings.HasSuffix(r.Last, ":m") {
+					bad("failover/masks-missing", "request %s of goroutine %d: the last consulted member answered %s, the group %s", r.Op, r.Thread, r.Last, r.Result)
+				} else {
+					bad("failover/result", "request %s of goroutine %d: the last consulted member answered %s, the group %s", r.Op, r.Thread, r.Last, r.Result)
+				}
 			}
 			if healthy {
 				if !(cls == "n" || (r.Op[0] == 'g' && cls == "m")) {
@@ -565,7 +618,7 @@ func c11GenSwapCase(rng *vh.Rand) *c11ConcCase {
 }
 
 func c11Concurrent(a vh.Args, o *vh.Oracle, r *vh.Result, rng *vh.Rand) error {
-	n := 250
+	n := 400
 	if a.Tier == "thorough" {
 		n = 6000
 	}
